@@ -248,8 +248,13 @@ func newBedOnce(c *Ctx, name string, o BedOpts) (*Bed, error) {
 	y.WriteString("servers:\n")
 	for i, kind := range o.Listeners {
 		addr := fmt.Sprintf("127.0.0.1:%d", ports[i])
+		proto := kind
+		if strings.HasPrefix(kind, "unix") { // "unixtcp", "unixgnet": the stream listener on an abstract unix socket
+			proto = strings.TrimPrefix(kind, "unix")
+			addr = fmt.Sprintf("@verif_%d_%s_%d", os.Getpid(), name, ports[i])
+		}
 		b.L[kind] = addr
-		fmt.Fprintf(&y, "  - tag: l_%s\n    protocol: %s\n    listen: \"%s\"\n", kind, kind, addr)
+		fmt.Fprintf(&y, "  - tag: l_%s\n    protocol: %s\n    listen: \"%s\"\n", kind, proto, addr)
 		if kind == "udp" && o.UdpRcvBuf > 0 {
 			fmt.Fprintf(&y, "    socket:\n      so_rcvbuf: %d\n", o.UdpRcvBuf)
 		}
@@ -488,7 +493,7 @@ func (b *Bed) Exchange(kind string, wire []byte, o xOpts) xResult {
 			time.Sleep(time.Millisecond)
 		}
 		return xResult{Err: fmt.Errorf("timeout"), TSend: ts}
-	case "tcp", "gnet", "tls":
+	case "tcp", "gnet", "tls", "unixtcp", "unixgnet":
 		var tc *tls.Config
 		if kind == "tls" {
 			tc = tcfg
